@@ -76,23 +76,28 @@ size_t g_el_i, g_el_k;
 /* --------------------------------- secp256k1_borromean_verify, single ring, evalues == NULL (ORACLE) */
 #ifdef EL_BORROMEAN_VERIFY
 /* The ring equation is the algebraic residue.  The contract demands what the real function needs from
- * its caller (readable arrays of rsizes[0] entries, reduced scalars, group elements in representation
- * range - checked at the ghost position g_el_i, i.e. for every position) and logs what it was given
+ * its caller (readable arrays of rsizes[0] entries, reduced scalars - checked at the ghost position
+ * g_el_i, i.e. for every position; the keys come from an oracle that yields representation-range
+ * elements) and logs what it was given
  * and what it answered.  Its own gates (s = 0, infinity, hash order) belong to C10.borromean_verify. */
 int g_bv_n, g_bv_ret, g_bv_e0_match, g_bv_evalues_null; size_t g_bv_nrings, g_bv_rsize0, g_bv_mlen;
 const unsigned char *g_bv_e0_expect;     /* set by the harness only */
-secp256k1_scalar g_bv_s_i; secp256k1_gej g_bv_pub_i; unsigned char g_bv_m_k;
+secp256k1_scalar g_bv_s_i; unsigned char g_bv_m_k;
+/* the key array is identified by (object, offset) of its pointer plus one limb of entry g_el_i: reading a
+ * whole 128-byte group element at a symbolic index of a 32 KiB array costs 20 M clauses per read */
+size_t g_bv_pub_obj, g_bv_pub_off; uint64_t g_bv_pub_x0;
 static int secp256k1_borromean_verify(const secp256k1_hash_ctx *hash_ctx, secp256k1_scalar *evalues, const unsigned char *e0, const secp256k1_scalar *s,
  const secp256k1_gej *pubs, const size_t *rsizes, size_t nrings, const unsigned char *m, size_t mlen)
 __CPROVER_requires(hash_ctx != NULL && evalues == NULL && nrings == 1 && __CPROVER_r_ok(rsizes, sizeof(size_t)) && rsizes[0] <= 256)
 __CPROVER_requires(__CPROVER_r_ok(e0, 32) && __CPROVER_r_ok(m, mlen) && mlen == 32)
 __CPROVER_requires(__CPROVER_r_ok(s, rsizes[0] * sizeof(secp256k1_scalar)) && __CPROVER_r_ok(pubs, rsizes[0] * sizeof(secp256k1_gej)))
-__CPROVER_requires(g_el_i < rsizes[0] ==> (scalar_ok(&s[g_el_i]) && gej_ok(&pubs[g_el_i])))
-__CPROVER_assigns(g_bv_n, g_bv_ret, g_bv_e0_match, g_bv_evalues_null, g_bv_nrings, g_bv_rsize0, g_bv_mlen, g_bv_s_i, g_bv_pub_i, g_bv_m_k)
+__CPROVER_requires(g_el_i < rsizes[0] ==> scalar_ok(&s[g_el_i]))
+__CPROVER_assigns(g_bv_n, g_bv_ret, g_bv_e0_match, g_bv_evalues_null, g_bv_nrings, g_bv_rsize0, g_bv_mlen, g_bv_s_i, g_bv_pub_obj, g_bv_pub_off, g_bv_pub_x0, g_bv_m_k)
 __CPROVER_ensures(__CPROVER_return_value == 0 || __CPROVER_return_value == 1)
 __CPROVER_ensures(g_bv_n == __CPROVER_old(g_bv_n) + 1 && g_bv_ret == __CPROVER_return_value && g_bv_e0_match == (e0 == g_bv_e0_expect) &&
                   g_bv_evalues_null == (evalues == NULL) && g_bv_nrings == nrings && g_bv_rsize0 == rsizes[0] && g_bv_mlen == mlen)
-__CPROVER_ensures(g_el_i < rsizes[0] ==> (SC_EQ(g_bv_s_i, s[g_el_i]) && GEJ_EQ(g_bv_pub_i, pubs[g_el_i])))
+__CPROVER_ensures(g_el_i < rsizes[0] ==> (SC_EQ(g_bv_s_i, s[g_el_i]) && g_bv_pub_x0 == pubs[g_el_i].x.n[0]))
+__CPROVER_ensures(g_bv_pub_obj == __CPROVER_POINTER_OBJECT(pubs) && g_bv_pub_off == __CPROVER_POINTER_OFFSET(pubs))
 __CPROVER_ensures(g_el_k < mlen ==> g_bv_m_k == m[g_el_k])
 ;
 #endif
@@ -104,15 +109,16 @@ __CPROVER_ensures(g_el_k < mlen ==> g_bv_m_k == m[g_el_k])
  * contract lets it fail so that the caller's handling of a failure is an obligation. */
 int g_ck_n, g_ck_ret, g_ck_nkeys, g_ck_args_match;
 const secp256k1_pubkey *g_ck_online_expect, *g_ck_offline_expect, *g_ck_sub_expect;   /* harness only */
-secp256k1_gej g_ck_key_i; unsigned char g_ck_msg_k;
+size_t g_ck_keys_obj, g_ck_keys_off; uint64_t g_ck_key_x0; unsigned char g_ck_msg_k;
 static int secp256k1_whitelist_compute_keys_and_message(const secp256k1_context* ctx, unsigned char *msg32, secp256k1_gej *keys, const secp256k1_pubkey *online_pubkeys, const secp256k1_pubkey *offline_pubkeys, const int n_keys, const secp256k1_pubkey *sub_pubkey)
 __CPROVER_requires(ctx != NULL && n_keys >= 0 && n_keys <= 255 && __CPROVER_w_ok(msg32, 32) && __CPROVER_w_ok(keys, n_keys * sizeof(secp256k1_gej)))
 __CPROVER_requires(__CPROVER_r_ok(online_pubkeys, n_keys * sizeof(secp256k1_pubkey)) && __CPROVER_r_ok(offline_pubkeys, n_keys * sizeof(secp256k1_pubkey)) && __CPROVER_r_ok(sub_pubkey, sizeof(secp256k1_pubkey)))
-__CPROVER_assigns(__CPROVER_object_upto(msg32, 32), __CPROVER_object_whole(keys), g_ck_n, g_ck_ret, g_ck_nkeys, g_ck_args_match, g_ck_key_i, g_ck_msg_k)
+__CPROVER_assigns(__CPROVER_object_upto(msg32, 32), __CPROVER_object_whole(keys), g_ck_n, g_ck_ret, g_ck_nkeys, g_ck_args_match, g_ck_keys_obj, g_ck_keys_off, g_ck_key_x0, g_ck_msg_k)
 __CPROVER_ensures(__CPROVER_return_value == 0 || __CPROVER_return_value == 1)
 __CPROVER_ensures(g_ck_n == __CPROVER_old(g_ck_n) + 1 && g_ck_ret == __CPROVER_return_value && g_ck_nkeys == n_keys &&
                   g_ck_args_match == (online_pubkeys == g_ck_online_expect && offline_pubkeys == g_ck_offline_expect && sub_pubkey == g_ck_sub_expect))
-__CPROVER_ensures(g_el_i < (size_t)n_keys ==> (gej_ok(&keys[g_el_i]) && GEJ_EQ(g_ck_key_i, keys[g_el_i])))
+__CPROVER_ensures(g_el_i < (size_t)n_keys ==> g_ck_key_x0 == keys[g_el_i].x.n[0])
+__CPROVER_ensures(g_ck_keys_obj == __CPROVER_POINTER_OBJECT(keys) && g_ck_keys_off == __CPROVER_POINTER_OFFSET(keys))
 __CPROVER_ensures(g_el_k < 32 ==> g_ck_msg_k == msg32[g_el_k])
 ;
 #endif
